@@ -1,8 +1,8 @@
-(* Frontends_proofs.v — lemmas behind Props/C12.v and Props/C17.v.
-   Part 1 is generic in the skeleton record; part 2 instantiates it with the skeletons
-   regenerated from pymodbus/server/*.py (Generated/GenFrontends.v). *)
+(* Frontends_proofs.v — lemmas behind Props/C12.v and Props/C17.v that are GENERIC in the skeleton
+   record (no generated file is imported here).  The instantiations with the skeletons regenerated
+   from pymodbus/server/*.py live in FrontendsC12_proofs.v and FrontendsC17_proofs.v, so that a
+   change that breaks one property's obligations does not take the other's down. *)
 From PM.theories Require Import Base Ladder Frontends.
-From PM.Generated Require Import GenFrontends.
 Open Scope list_scope.
 Open Scope Z_scope.
 Arguments step_action : simpl never.
@@ -272,254 +272,3 @@ Section Generic.
   Qed.
 End Generic.
 
-(* ------------------------------------------------------------------------------------- *)
-(* Part 2 — the skeletons regenerated from pymodbus/server/{sync,async_io,asynchronous}.py *)
-(* ------------------------------------------------------------------------------------- *)
-
-(* the front-ends whose loop ends in a catch-all *)
-Definition catch_all_fe (fe : frontend) : bool :=
-  match fe with SyncTcp | SyncSerial | SyncUdp | AioTcp | AioUdp => true | TwTcp | TwUdp => false end.
-
-Lemma generated_no_escape : forall fe, catch_all_fe fe = true -> no_escape_on_ordinary (fc_loop code fe).
-Proof.
-  intros fe Hfe b r Hr.
-  destruct fe; try discriminate Hfe; destruct b;
-    destruct r as [e| | | |]; try discriminate Hr; try destruct e; vm_compute; discriminate.
-Qed.
-
-(* the bare `except:` of the threaded TCP handler also contains BaseExceptions *)
-Lemma sync_tcp_contains_everything : forall b r, step_action (fc_loop code SyncTcp) b (Some r) <> Escape.
-Proof. intros b r; destruct b; destruct r as [e| | | |]; try destruct e; vm_compute; discriminate. Qed.
-
-(* asyncio: task cancellation is caught as well *)
-Lemma aio_contains_cancel : forall fe b, (fe = AioTcp \/ fe = AioUdp) ->
-  step_action (fc_loop code fe) b (Some RCancelled) = Continue.
-Proof. intros fe b [H|H]; subst; destruct b; reflexivity. Qed.
-
-(* after an exception of the framer/decoder/execute layer the offending data is discarded or the
-   connection is closed — the handler never carries on with the poisoned buffer *)
-Lemma generated_recovers : forall fe b e, catch_all_fe fe = true ->
-  let a := step_action (fc_loop code fe) b (Some (RPy e)) in
-  a = StopReset \/ a = ResetFrame \/ a = CloseTransport.
-Proof.
-  intros fe b e Hfe. destruct fe; try discriminate Hfe; destruct b; destruct e; vm_compute; tauto.
-Qed.
-
-(* the execute()/_execute() ladders: every exception class is turned into a Modbus exception
-   response (or silence, for a missing unit under ignore_missing_slaves) *)
-Lemma generated_exec_policy : forall fe e,
-  first_match (xs_ladder (fc_exec code fe)) (RPy e) =
-  Some (match e with NoSuchSlaveExc => XIgnoreOrExc 11 | _ => XExc 4 end).
-Proof. intros fe e; destruct fe; destruct e; reflexivity. Qed.
-
-(* Twisted TCP: no handler at all *)
-Lemma twisted_tcp_ladder_empty : forall b r, step_action (fc_loop code TwTcp) b (Some r) = Escape.
-Proof. intros b r; destruct b; reflexivity. Qed.
-
-Section Generated.
-  Variables FS Req Resp World : Type.
-  Variable E : env FS Req Resp World.
-  Notation serve_step := (serve_step FS Req Resp World code E).
-  Notation serve_data := (serve_data FS Req Resp World code E).
-  Notation serve_event := (serve_event FS Req Resp World code E).
-  Notation deliver := (deliver FS Req Resp World E).
-  Notation callback := (callback FS Req Resp World E).
-  Notation fargs_for := (fargs_for FS Req Resp World E).
-
-  Lemma total_generated : forall fe c sv k i, catch_all_fe fe = true ->
-    snd (serve_event fe c sv k i) <> Escape.
-  Proof. intros. apply serve_event_no_escape. apply generated_no_escape. assumption. Qed.
-
-  (* what the framer raises on a chunk escapes dataReceived; nothing is reset, so the same bytes
-     are still in the buffer when the next chunk arrives *)
-  Lemma twisted_tcp_escapes : forall c w cs bs ff e,
-    e_listen_only _ _ _ _ E w = false ->
-    e_recv _ _ _ _ E (fargs_for (fc_loop code TwTcp) c w (is_empty bs)) (cs_f _ cs) bs = ([], ff, Some e) ->
-    serve_step TwTcp c w cs (IData bs) =
-      (w, {| cs_f := ff; cs_running := cs_running _ cs && true; cs_closed := cs_closed _ cs |}, [], Escape).
-  Proof.
-    intros c w cs bs ff e Hl Hr. unfold Frontends.serve_step.
-    change (pre_raise (fc_loop code TwTcp)) with (@None pyexn).
-    change (ls_listen_gate (fc_loop code TwTcp)) with true. rewrite Hl. cbn [andb].
-    change (empty_skips (fc_loop code TwTcp)) with false. rewrite Bool.andb_false_r.
-    unfold Frontends.serve_data.
-    change (ls_units (fc_loop code TwTcp)) with UnitsRaw. cbv iota. rewrite Hr. cbn [Frontends.deliver option_map].
-    rewrite twisted_tcp_ladder_empty. reflexivity.
-  Qed.
-
-  (* where nothing is raised Twisted TCP is as good as the others *)
-  Lemma twisted_tcp_partial : forall c w cs bs,
-    (let '(ds, ff, exn) := e_recv _ _ _ _ E (fargs_for (fc_loop code TwTcp) c w (is_empty bs)) (cs_f _ cs) bs in
-     snd (deliver (fc_exec code TwTcp) c w ds ff exn []) = None) ->
-    snd (serve_step TwTcp c w cs (IData bs)) <> Escape.
-  Proof.
-    intros c w cs bs H. unfold Frontends.serve_step.
-    change (pre_raise (fc_loop code TwTcp)) with (@None pyexn).
-    destruct (ls_listen_gate (fc_loop code TwTcp) && e_listen_only _ _ _ _ E w); [cbn; discriminate|].
-    change (empty_skips (fc_loop code TwTcp)) with false. rewrite Bool.andb_false_r.
-    unfold Frontends.serve_data.
-    change (ls_units (fc_loop code TwTcp)) with UnitsRaw. cbv iota.
-    destruct (e_recv _ _ _ _ E _ (cs_f _ cs) bs) as [[ds ff] exn].
-    destruct (deliver (fc_exec code TwTcp) c w ds ff exn []) as [[[w' f'] outs] exn'].
-    cbn in H. subst exn'. cbn [snd option_map]. apply step_action_none.
-  Qed.
-
-  (* Twisted UDP: every datagram raises TypeError before the framer is reached *)
-  Lemma twisted_udp_dead : forall c w cs i,
-    let r := serve_step TwUdp c w cs i in
-    fst (fst (fst r)) = w /\ cs_f _ (snd (fst (fst r))) = cs_f _ cs /\ snd (fst r) = [] /\ snd r = Escape.
-  Proof. intros. cbn. repeat split; reflexivity. Qed.
-End Generated.
-
-(* ------------------------------------------------------------------------------------- *)
-(* Part 3 — C17: the three stream front-ends against each other                            *)
-(* ------------------------------------------------------------------------------------- *)
-
-Definition exec_agree (X Y : exec_skel) : Prop :=
-  xs_ladder X = xs_ladder Y /\ xs_copy_tid X = xs_copy_tid Y /\ xs_copy_uid X = xs_copy_uid Y /\
-  xs_send_checks_respond X = xs_send_checks_respond Y.
-
-Definition stream_fe (fe : frontend) : Prop := fe = SyncTcp \/ fe = AioTcp \/ fe = TwTcp.
-
-Lemma generated_exec_agree : forall a b, stream_fe a -> stream_fe b -> exec_agree (fc_exec code a) (fc_exec code b).
-Proof.
-  intros a b [Ha|[Ha|Ha]] [Hb|[Hb|Hb]]; subst; repeat split; reflexivity.
-Qed.
-
-Section Equiv.
-  Variables FS Req Resp World : Type.
-  Variable E : env FS Req Resp World.
-  Notation serve_step := (serve_step FS Req Resp World code E).
-  Notation serve_data := (serve_data FS Req Resp World code E).
-  Notation deliver := (deliver FS Req Resp World E).
-  Notation callback := (callback FS Req Resp World E).
-  Notation tail := (tail FS Req Resp World E).
-  Notation send := (send FS Req Resp World E).
-  Notation fargs_for := (fargs_for FS Req Resp World E).
-  Notation run_conn := (run_conn FS Req Resp World code E).
-
-  (* the features the three front-ends have in common: no broadcast option (Twisted has none),
-     listen-only mode never entered (only Twisted honours it), and a world abstraction that does
-     not observe the bus-message counter (only Twisted increments it) *)
-  Record common_features (c : cfg) : Prop := {
-    cf_no_broadcast : cfg_broadcast c = false;
-    cf_no_listen_only : forall w, e_listen_only _ _ _ _ E w = false;
-    cf_bus_blind : forall w, e_count_bus _ _ _ _ E w = w }.
-
-  Lemma send_equiv : forall X Y w p, exec_agree X Y -> (forall w, e_count_bus _ _ _ _ E w = w) ->
-    send X w p = send Y w p.
-  Proof.
-    intros X Y w p (_ & _ & _ & Hr) Hbus. unfold Frontends.send. rewrite Hr, !Hbus.
-    destruct (xs_counts_bus X), (xs_counts_bus Y); reflexivity.
-  Qed.
-
-  Lemma tail_equiv : forall X Y w r p, exec_agree X Y -> (forall w, e_count_bus _ _ _ _ E w = w) ->
-    tail X false w r p = tail Y false w r p.
-  Proof.
-    intros X Y w r p HA Hbus. pose proof HA as (_ & Ht & Hu & _). unfold Frontends.tail.
-    rewrite !Bool.andb_false_r. destruct p as [p|]; [|reflexivity].
-    rewrite Ht, Hu. apply send_equiv; assumption.
-  Qed.
-
-  Lemma callback_equiv : forall X Y c w r, exec_agree X Y -> cfg_broadcast c = false ->
-    (forall w, e_count_bus _ _ _ _ E w = w) -> callback X c w r = callback Y c w r.
-  Proof.
-    intros X Y c w r HA Hb Hbus. pose proof HA as (Hl & _). unfold Frontends.callback.
-    rewrite Hb, !Bool.andb_false_r. cbn [andb].
-    destruct (e_run _ _ _ _ E w (e_uid _ _ _ _ E r) r) as [w1 [p|e]].
-    - apply tail_equiv; assumption.
-    - rewrite Hl. destruct (first_match (xs_ladder Y) (RPy e)) as [[code|code]|]; [| |reflexivity].
-      + destruct (cfg_ignore_missing c); [reflexivity|apply tail_equiv; assumption].
-      + apply tail_equiv; assumption.
-  Qed.
-
-  Lemma deliver_equiv : forall X Y c ds w ff exn acc, exec_agree X Y -> cfg_broadcast c = false ->
-    (forall w, e_count_bus _ _ _ _ E w = w) ->
-    deliver X c w ds ff exn acc = deliver Y c w ds ff exn acc.
-  Proof.
-    induction ds as [|[f r] t IH]; intros; cbn; [reflexivity|].
-    rewrite (callback_equiv X Y) by assumption.
-    destruct (callback Y c w r); [apply IH; assumption|reflexivity].
-  Qed.
-
-  Lemma prep_units_no_broadcast : forall c us, cfg_broadcast c = false -> prep_units c us = us.
-  Proof. intros c us H. unfold prep_units. rewrite H. reflexivity. Qed.
-
-  Lemma fargs_equiv : forall a b c w e, stream_fe a -> stream_fe b -> cfg_broadcast c = false ->
-    fargs_for (fc_loop code a) c w e = fargs_for (fc_loop code b) c w e.
-  Proof.
-    intros a b c w e Ha Hb Hc. unfold Frontends.fargs_for, Frontends.units_for.
-    destruct Ha as [Ha|[Ha|Ha]], Hb as [Hb|[Hb|Hb]]; subst; cbn;
-      rewrite ?prep_units_no_broadcast by assumption; destruct e; reflexivity.
-  Qed.
-
-  (* the part of an activation that does not depend on the ladder *)
-  Definition data_core (fe : frontend) (c : cfg) (w : World) (f : FS) (bs : bytes) :=
-    let '(ds, ffinal, exn) := e_recv _ _ _ _ E (fargs_for (fc_loop code fe) c w (is_empty bs)) f bs in
-    deliver (fc_exec code fe) c w ds ffinal exn [].
-
-  Lemma data_core_equiv : forall a b c w f bs, stream_fe a -> stream_fe b -> common_features c ->
-    data_core a c w f bs = data_core b c w f bs.
-  Proof.
-    intros a b c w f bs Ha Hb [Hc _ Hbus]. unfold data_core.
-    rewrite (fargs_equiv a b) by assumption.
-    destruct (e_recv _ _ _ _ E _ f bs) as [[ds ff] exn].
-    apply deliver_equiv; [apply generated_exec_agree| |]; assumption.
-  Qed.
-
-  Lemma serve_step_core : forall fe c w cs bs, stream_fe fe -> common_features c -> bs <> [] ->
-    serve_step fe c w cs (IData bs) =
-    let '(w', f', outs, exn') := data_core fe c w (cs_f _ cs) bs in
-    let a := step_action (fc_loop code fe) false (option_map RPy exn') in
-    (w', apply_action _ _ _ _ E (fc_loop code fe) a f' cs, outs, a).
-  Proof.
-    intros fe c w cs bs Hfe [Hc Hl Hbus] Hbs.
-    assert (He : is_empty bs = false) by (destruct bs; [congruence|reflexivity]).
-    unfold Frontends.serve_step, Frontends.serve_data, data_core. rewrite Hl, He.
-    destruct Hfe as [H|[H|H]]; subst fe; cbn [pre_raise fc_loop code loop_of loop_SyncTcp loop_AioTcp loop_TwTcp
-      ls_addr_fmt ls_listen_gate ls_units andb];
-      destruct (e_recv _ _ _ _ E _ (cs_f _ cs) bs) as [[ds ff] exn]; reflexivity.
-  Qed.
-
-  (* one chunk: same world, same bytes sent, same framer state before the ladder acts *)
-  Lemma step_equiv : forall a b c w cs bs, stream_fe a -> stream_fe b -> common_features c -> bs <> [] ->
-    let ra := serve_step a c w cs (IData bs) in
-    let rb := serve_step b c w cs (IData bs) in
-    fst (fst (fst ra)) = fst (fst (fst rb)) /\ snd (fst ra) = snd (fst rb) /\
-    (snd ra = Continue -> ra = rb).
-  Proof.
-    intros a b c w cs bs Ha Hb Hc Hbs. cbn zeta.
-    rewrite (serve_step_core a), (serve_step_core b) by assumption.
-    rewrite (data_core_equiv a b) by assumption.
-    destruct (data_core b c w (cs_f _ cs) bs) as [[[w' f'] outs] exn']. cbn [fst snd].
-    repeat split.
-    intro Hcont. destruct exn' as [e|]; cbn [option_map] in *.
-    - exfalso. destruct Ha as [H|[H|H]]; subst a; destruct e; vm_compute in Hcont; discriminate.
-    - destruct Ha as [H|[H|H]], Hb as [H'|[H'|H']]; subst; reflexivity.
-  Qed.
-
-  (* a whole connection: as long as nothing is raised the three front-ends are the same function
-     of (world, chunk list) *)
-  Fixpoint clean (fe : frontend) (c : cfg) (w : World) (cs : connstate FS) (chunks : list bytes) : bool :=
-    match chunks with
-    | [] => true
-    | b :: t => let '(w', cs', _, a) := serve_step fe c w cs (IData b) in
-                action_eqb a Continue && clean fe c w' cs' t
-    end.
-
-  Lemma action_eqb_continue : forall a, action_eqb a Continue = true -> a = Continue.
-  Proof. intros a; destruct a; cbn; congruence. Qed.
-
-  Lemma conn_equiv : forall a b c chunks w cs, stream_fe a -> stream_fe b -> common_features c ->
-    Forall (fun bs => bs <> []) chunks -> clean a c w cs chunks = true ->
-    run_conn a c w cs chunks = run_conn b c w cs chunks.
-  Proof.
-    intros a b c chunks. induction chunks as [|bs t IH]; intros w cs Ha Hb Hc Hne Hcl; [reflexivity|].
-    inversion Hne as [|? ? Hbs Ht]; subst.
-    destruct (step_equiv a b c w cs bs Ha Hb Hc Hbs) as (_ & _ & Heq).
-    cbn [clean Frontends.run_conn] in *.
-    destruct (serve_step a c w cs (IData bs)) as [[[w1 cs1] o1] a1].
-    apply andb_prop in Hcl. destruct Hcl as [Hc1 Hcl]. apply action_eqb_continue in Hc1. subst a1.
-    rewrite <- (Heq eq_refl). rewrite (IH w1 cs1) by assumption. reflexivity.
-  Qed.
-End Equiv.
